@@ -340,6 +340,7 @@ is_elem = z3.Function("is_element_name", Str, z3.BoolSort())
 is_fn = z3.Function("element_is_function", Str, z3.BoolSort())
 el_prec = z3.Function("element_precedence", Str, z3.IntSort())
 el_assoc = z3.Function("element_associativity", Str, z3.IntSort())
+el_arity = z3.Function("element_arity", Str, z3.IntSort())
 cntp = z3.Function("count_open_parens", SeqStr, z3.IntSort())          # ghost: number of "(" tokens in a token list (recursive definition, unfolded at append/pop)
 dep = z3.Function("paren_depth", z3.IntSort(), z3.IntSort())           # ghost: #"(" - #")" among the first k tokens of the formula
 
@@ -354,8 +355,8 @@ class InfixExec(ParserExec):
         if isinstance(e.value, ast.Name) and isinstance(p.env.get(e.value.id), ElemV) or (isinstance(e.value, ast.Subscript) and False):
             el = p.env[e.value.id]
             s.oblige(f"safety/line{e.lineno - s.fn_line}:attribute `{e.attr}` of None", p, is_elem(el.tok))
-            if e.attr in ("precedence", "associativity"):
-                f = el_prec if e.attr == "precedence" else el_assoc
+            if e.attr in ("precedence", "associativity", "arity"):
+                f = {"precedence": el_prec, "associativity": el_assoc, "arity": el_arity}[e.attr]
                 return Num(X(xr.F, xr.I0, z3.ToReal(f(el.tok))), False, True, True)
         return super().ev_Attribute(p, e)
 
@@ -403,12 +404,12 @@ class InfixExec(ParserExec):
 
     # ghost: unfold cntp where the stack changes
     def on_append(s, name, cur, new, v):
-        if name != "stack":
+        if name != "stack" or cur.sort() != SeqStr:
             return []
         return [cntp(new) == cntp(cur) + z3.If(v == strc("("), 1, 0), cntp(new) >= 0, cntp(cur) >= 0]
 
     def on_pop(s, name, cur, rest, top):
-        if name != "stack":
+        if name != "stack" or cur.sort() != SeqStr:
             return []
         return [cntp(cur) == cntp(rest) + z3.If(top == strc("("), 1, 0), cntp(rest) >= 0, cntp(cur) >= 0]
 
